@@ -20,6 +20,8 @@ var (
 	ErrVerifyPoseidonFailed = errors.New("verifyPoseidon failed")
 	// ErrVerifyMimc7Failed BJJ EdDSA (with Mimc7 digest) signature verification failed
 	ErrVerifyMimc7Failed = errors.New("verifyMimc7 failed")
+	// ErrSOutOfRange the S component of the signature is not in [0, SubOrder)
+	ErrSOutOfRange = errors.New("signature S out of range")
 )
 
 // pruneBuffer prunes the buffer during key generation according to RFC 8032.
@@ -277,6 +279,9 @@ func (k *PrivateKey) SignMimc7(msg *big.Int) (*Signature, error) {
 // VerifyMimc7 verifies the signature of a message encoded as a big.Int in Zq
 // using blake-512 hash for buffer hashing and mimc7 for big.Int hashing.
 func (pk *PublicKey) VerifyMimc7(msg *big.Int, sig *Signature) error {
+	if sig.S.Sign() < 0 || sig.S.Cmp(SubOrder) >= 0 {
+		return ErrSOutOfRange
+	}
 	hmInput := []*big.Int{sig.R8.X, sig.R8.Y, pk.X, pk.Y, msg}
 	hm, err := mimc7.Hash(hmInput, nil) // hm = H1(8*R.x, 8*R.y, A.x, A.y, msg)
 	if err != nil {
@@ -326,6 +331,9 @@ func (k *PrivateKey) SignPoseidon(msg *big.Int) (*Signature, error) {
 // VerifyPoseidon verifies the signature of a message encoded as a big.Int in Zq
 // using blake-512 hash for buffer hashing and Poseidon for big.Int hashing.
 func (pk *PublicKey) VerifyPoseidon(msg *big.Int, sig *Signature) error {
+	if sig.S.Sign() < 0 || sig.S.Cmp(SubOrder) >= 0 {
+		return ErrSOutOfRange
+	}
 	hmInput := []*big.Int{sig.R8.X, sig.R8.Y, pk.X, pk.Y, msg}
 	hm, err := poseidon.Hash(hmInput) // hm = H1(8*R.x, 8*R.y, A.x, A.y, msg)
 	if err != nil {
